@@ -709,7 +709,7 @@ func runC05(r *mc.Run) {
 		depth = 11
 		r.SetBudget(10 * 60 * 1e9)
 	} else {
-		r.SetBudget(150 * 1e9)
+		r.SetBudget(300 * 1e9)
 	}
 	r.Bounds["depth_actions"] = depth
 	r.Rule = "DFS over interleavings of user requests (withdraw with good/undecodable address, fee update lower/higher, cancel, fee update + cancel in one block) and relayer actions (process [1],[2],[1,2],[1,1], +change; replace; finalize original/each replacement/unknown txid; approve [id],[1,2],[1,1],[1,2,1]; hand-over) over ids 1..3 with a 2-member quorum; every step compared with a reference life-cycle model; in every distinct state all ill-formed variants of the enabled actions (25 kinds: script, amount, fee rate, outputs, change key, quorum, payload, fee not higher, identical tx, forged/unvoted/other-header/aliased-index proofs, sender) are applied on throw-away branches and must fail without changing the store"
